@@ -221,6 +221,9 @@ pub fn run(ctx: &Arc<Ctx>) {
     let mut cfgs = vec![annex.clone()];
     cfgs.push(mk(&annex.ke, "", "x", &mut g));
     cfgs.push(mk(&seeded_ke, "Alice", "Bob", &mut g));
+    // ephemeral scalars with all-zero 64-bit limbs between non-zero ones; master key equal to H1(ID_B||02) (Q_B is a doubling)
+    cfgs.push(Config { ke: annex.ke.clone(), ida: "Alice".into(), idb: "Bob".into(), ra: hexbig(&((BigUint::one() << 128usize) + 1u32)), rb: hexbig(&((BigUint::from(0x1234u32) << 192usize) + 15u32)) });
+    cfgs.push(mk(&hexbig(&sm9::h1(b"Bob", sm9::HID_EXCH)), "Alice", "Bob", &mut g));
     if ctx.tier == Tier::Thorough {
         cfgs.push(mk(&annex.ke, "len:33", "len:7", &mut g));
         cfgs.push(mk(&seeded_ke, "", "x", &mut g));
